@@ -65,7 +65,7 @@ TECH_K = 'Kani/CBMC: assume(requires); one call of the real function; assert(ens
 prop('C01', title='Responses reach exactly the call that asked',
      verus=['client'], native=['client_routing_bounded', 'client_wire_bounded'], technique=TECH_V + '; plus a bounded replay search through the public API as a source of concrete failing inputs (never counted as proved)',
      assumptions=COMMON_V + ['A-oneshot', 'A-mpsc', 'A-ids', 'A-pair', 'A-delayqueue', 'A-sink'],
-     level_text='Deductive proof over all table states, ids and responses: complete_request/complete/pump_read deliver a response body only to the oneshot channel stored under the response\'s own id, remove exactly that entry, and leave view, timers and effect log untouched for an unknown id; the write pump only ever delivers errors; insert stores exactly the given sender under the id written to the wire. Every history is a sequence of these contracted calls (single-owner dispatch), so the per-call clauses + dispatch invariant give the property for all interleavings.',
+     level_text='Deductive proof over all table states, ids and responses: complete_request/complete/pump_read deliver a response body only to the oneshot channel stored under the response\'s own id, remove exactly that entry, and leave view, timers and effect log untouched for an unknown id; the write pump only ever delivers errors; insert stores exactly the given sender under the id written to the wire. Every history is a sequence of these contracted calls (single-owner dispatch); that step is itself machine-checked: each table function carries the step relation of lemmas/client_history.rs as a postcondition, and lemma_history proves by induction over every sequence of such steps that a delivery stemming from a response went to the channel of the call owning the response\'s id, with a value received for that id, at most once per call.',
      level_note='Channel::call is under contract too: the sender it enqueues under the allocated id is the sender of the very receiver it then awaits (A-pair reduced to the model of oneshot::channel()). tokio\'s oneshot delivery is assumed (A-oneshot).',
      not_covered='that tokio delivers the value sent on a oneshot to the paired receiver')
 prop('C02', SERVER_TOO, title='Every call terminates; no wakeup is lost',
@@ -93,7 +93,7 @@ prop('C07', SERVER_TOO, title='Deadlines propagate across hops without stretchin
      level_note='Codecs carrying a Duration faithfully and serde_derive\'s default handling are assumed (A-codec).',
      not_covered='context::current() inside a handler without an OpenTelemetry layer; the derived Context::deserialize with the field omitted')
 prop('C09', SERVER_TOO, title='Transport failures are contained and reported',
-     verus=['client'], native=['complete_all_bounded', 'drop_aborts_bounded'], technique=TECH_V + '; bounded native stand-ins for the two functions cut to assumed contracts',
+     verus=['client'], native=['complete_all_bounded', 'drop_aborts_bounded', 'server_wire_bounded'], technique=TECH_V + '; bounded native stand-ins for the two functions cut to assumed contracts; server replay search (oracle: no error reported while the transport never failed; endpoint panics)',
      assumptions=COMMON_V + ['A-sink', 'A-oneshot', 'A-mpsc', 'A-delayqueue'],
      level_text='Proof that each transport wrapper tags a failure with its activity and that the tag survives `?` up to run(); that a failed request write removes and fails only that call and is not fatal; that start_send is never reached after a reported failure (its precondition); panic freedom of every extracted function (expect/unwrap/DelayQueue preconditions discharged).',
      level_note='shut_down_with_terminal_error is under contract (every queued caller with an open receiver is delivered the channel error; only channel errors are delivered; the transport is not touched again) with complete_all_requests cut to an ASSUMED contract (R11: impl Iterator over a draining map). Server: BaseChannel/Requests error tagging and containment are proved in unit server.',
@@ -155,7 +155,7 @@ prop('C08', NATIVE_SERVER, title='One handler and at most one response per reque
      verus=['server'], technique=TECH_V,
      assumptions=COMMON_V + ['A-abortable', 'A-delayqueue', 'A-sink', 'A-mpsc'],
      level_text='Proof that BaseChannel::poll_next yields a TrackedRequest only for an id that was not tracked at that moment and tracks it (a duplicate id yields nothing and changes nothing); that start_send writes a response iff its id is tracked and untracks it (so between two transmissions of an id there is a fresh read of it on this channel, and every transmitted response answers a request read here); that Requests forwards at most one response per pass through that start_send and wraps each TrackedRequest into exactly one InFlightRequest.',
-     level_note='Generic over the Channel contract: holds for BaseChannel and for MaxRequests<C> stacked on any quiet channel. InFlightRequest::execute is under contract: one handler invocation, one response bearing the request id, guard disarmed on every completion path.',
+     level_note='The history step is machine-checked: the table functions carry the step relations of lemmas/server_history.rs as postconditions, and lemma_server_history proves over every sequence of table operations that accepted(id) = answered(id) + cancelled-or-expired(id) + [id still tracked], i.e. every accepted request ends by exactly one route (at most one response each, none after cancellation/expiry; aborted handles are exactly those of the requests ended that way). Generic over the Channel contract: holds for BaseChannel and for MaxRequests<C> stacked on any quiet channel. InFlightRequest::execute is under contract: one handler invocation, one response bearing the request id, guard disarmed on every completion path.',
      not_covered='id reuse after cancellation while the old handler\'s response is still queued')
 prop('C12', NATIVE_SERVER, title='Per-channel request limit throttles exactly the excess',
      verus=['server'], technique=TECH_V + '; the inner channel is an arbitrary implementation of the proved Channel contract',
